@@ -703,6 +703,12 @@ func (x *Exec) loopHeader(h *ssa.BasicBlock, ci *cfgInfo, pre *State, reach Term
 		case Term:
 			post.cells[key] = u.W.Fresh("h."+cellName(key), ov.Sort)
 			x.assumeTypeInv(post.cells[key].(Term), cellType(key), reach, post)
+			if al, ok := key.(*ssa.Alloc); ok && ov.Sort == SSlice && alwaysFreshSlice(al) {
+				// structural invariant: the variable only ever holds nil, make(...) or append/reslice
+				// results of itself, so its backing array was allocated by this activation
+				nv := post.cells[key].(Term)
+				u.Assume(reach, Or(Ge(PBase(SlPtr(nv)), x.alloc0), Eq(SlCap(nv), IntLit(0))))
+			}
 		case *MapIter:
 			ni := *ov
 			ni.Visited = u.W.Fresh("visited", ov.Visited.Sort)
@@ -1324,4 +1330,43 @@ func (x *Exec) frameHeapNames(fc *FuncContract, fn *ssa.Function) ([]string, boo
 		}
 	}
 	return names, true
+}
+
+// alwaysFreshSlice: every value ever stored into the local slice variable is nil, a make, or an
+// append / reslice of the variable itself — so its backing array is memory allocated after the
+// verified function was entered (or it has capacity zero).
+func alwaysFreshSlice(al *ssa.Alloc) bool {
+	refs := al.Referrers()
+	if refs == nil {
+		return false
+	}
+	isSelf := func(v ssa.Value) bool {
+		u, ok := v.(*ssa.UnOp)
+		return ok && u.Op == token.MUL && u.X == ssa.Value(al)
+	}
+	for _, r := range *refs {
+		st, ok := r.(*ssa.Store)
+		if !ok || st.Addr != ssa.Value(al) {
+			continue
+		}
+		switch v := st.Val.(type) {
+		case *ssa.Const:
+			if v.Value != nil {
+				return false
+			}
+		case *ssa.MakeSlice:
+		case *ssa.Call:
+			bi, ok := v.Call.Value.(*ssa.Builtin)
+			if !ok || bi.Name() != "append" || !isSelf(v.Call.Args[0]) {
+				return false
+			}
+		case *ssa.Slice:
+			if !isSelf(v.X) {
+				return false
+			}
+		default:
+			return false
+		}
+	}
+	return true
 }
